@@ -170,10 +170,53 @@ theorem reorder_fixed_keys_misses_matrix :
     ((reorderSys (ofListFn [1, 0]) [("Ham", X), ("OO", X)]).map fun kv => (kv.1, kv.2 0 0)) = [("Ham", 11), ("OO", 11)] := by
   decide +kernel
 
+/-! ## multi-step histories: the shift bookkeeping of `Rvectors` -/
+
+theorem stepShifts_ok (s : Shifts) (op : SOp) (h : ShiftsOk s) : ShiftsOk (stepShifts s op) := by
+  obtain ⟨h1, h2⟩ := h
+  cases op with
+  | doubleSpin => exact ⟨by simp [stepShifts, h1], by simp [stepShifts, h2]⟩
+  | reorder p => exact ⟨by simp [stepShifts, h1], by simp [stepShifts, h2]⟩
+
+/-- T7 (histories).  After EVERY history of `double_spin` and `reorder` operations (any index lists, any number of
+    steps) on a freshly built system, the left and the right shift arrays both equal the centres of the current
+    Wannier functions: `reorder` permutes both arrays unconditionally, `double_spin` duplicates both. -/
+theorem shifts_follow_centres (c : List Nat) (ops : List SOp) : ShiftsOk (runShifts (Shifts.fresh c) ops) := by
+  have gen : ∀ (ops : List SOp) (s : Shifts), ShiftsOk s → ShiftsOk (runShifts s ops) := by
+    intro ops
+    induction ops with
+    | nil => intro s h; exact h
+    | cons op rest ih => intro s h; exact ih _ (stepShifts_ok s op h)
+  exact gen ops _ ⟨rfl, rfl⟩
+
+/-- … hence the pair `(t_i, t_j)` entering `R + t_j - t_i` is the pair of centres of the relabelled functions `i, j`,
+    so the derivative factor is relabelled consistently with the matrices (`reorder_commutes_with_derivative`). -/
+theorem shift_pairs_consistent (c : List Nat) (ops : List SOp) (i j : Nat) :
+    let s := runShifts (Shifts.fresh c) ops
+    (s.left.getD i 0, s.right.getD j 0) = (s.centres.getD i 0, s.centres.getD j 0) := by
+  obtain ⟨h1, h2⟩ := shifts_follow_centres c ops
+  simp only [h1, h2]
+
+/-- T7' (why a flag-guarded rule is wrong, and why it hides).  "Permute the right array only if `has_shifts_right`"
+    keeps the law for `[reorder p]` on a fresh system (the right array is the same object as the left one), but after
+    `double_spin` the arrays are separate objects while the flag is still false: for two centres `0, 1` the history
+    `[double_spin, reorder [2,3,0,1]]` leaves the right shifts in the old order. -/
+theorem flag_guarded_reorder_breaks_after_double_spin :
+    ShiftsOk (runShiftsFlag (Shifts.fresh [0, 1]) [SOp.reorder [1, 0]]) ∧
+    ¬ ShiftsOk (runShiftsFlag (Shifts.fresh [0, 1]) [SOp.doubleSpin, SOp.reorder [2, 3, 0, 1]]) ∧
+    (runShiftsFlag (Shifts.fresh [0, 1]) [SOp.doubleSpin, SOp.reorder [2, 3, 0, 1]]).right = [0, 0, 1, 1] ∧
+    (runShiftsFlag (Shifts.fresh [0, 1]) [SOp.doubleSpin, SOp.reorder [2, 3, 0, 1]]).centres = [1, 1, 0, 0] ∧
+    ShiftsOk (runShifts (Shifts.fresh [0, 1]) [SOp.doubleSpin, SOp.reorder [2, 3, 0, 1]]) := by
+  decide +kernel
+
 /-! ## non-vacuity of the executable model -/
 
 /-- a concrete reorder: swapping two functions moves rows, columns and centres together -/
 example : (List.range 2).map (fun i => (List.range 2).map fun j =>
       reorderM (ofListFn [1, 0]) (fun a b => ((10 * a + b : ℕ) : ℚ)) i j) = [[11, 10], [1, 0]] := by decide +kernel
+
+/-- a concrete history: two centres, double_spin, then a relabelling that moves functions between the centres -/
+example : (runShifts (Shifts.fresh [0, 1]) [SOp.doubleSpin, SOp.reorder [2, 3, 0, 1]]).right = [1, 1, 0, 0] := by
+  decide +kernel
 
 end WB.C05
